@@ -63,9 +63,13 @@ def fmt_op(op):
     o = op['op']
     c = op.get('c', 0)
     if o == 'new':
-        return 'new %d %s vo=%d no=%d vi=%d ni=%d enc=%s' % (
+        line = 'new %d %s vo=%d no=%d vi=%d ni=%d enc=%s' % (
             c, 'client' if op['client'] else 'server', op.get('vo', 1), op.get('no', 1),
             op.get('vi', 1), op.get('ni', 1), op.get('enc') or 'none')
+        if op.get('ls'):
+            # the application configured its own initial local settings (conn.local_settings = Settings(...))
+            line += ' ls=' + fmt_settings(op['ls'])
+        return line
     if o == 'initiate_connection':
         return 'call %d initiate_connection' % c
     if o == 'initiate_upgrade':
